@@ -49,6 +49,34 @@ V2 = [[{"name": "A", "type": "ui2", "min": 0, "max": 100}, {"name": "B", "type":
       [{"name": "A", "type": "i4"}, {"name": "D", "type": "string", "allowed": ["x", "y"]}]]
 
 
+class Hang(Exception):
+    """an event of the real code did not finish (e.g. a replay loop feeding itself)"""
+
+
+HANGS = [0]   # events that did not finish in this process; exploration stops after a few (each costs a timer period)
+
+
+def _alarm(signum, frame):
+    HANGS[0] += 1
+    raise Hang()
+
+
+class watchdog:
+    """handle_notify and the tail of async_subscribe never yield to the loop, so a non-terminating one can only be
+    interrupted by a signal; 0.5 s per event is three orders of magnitude above the normal cost"""
+
+    def __enter__(self):
+        import signal
+        self.old = signal.signal(signal.SIGALRM, _alarm)
+        signal.setitimer(signal.ITIMER_REAL, 0.5)
+
+    def __exit__(self, *a):
+        import signal
+        signal.setitimer(signal.ITIMER_REAL, 0)
+        signal.signal(signal.SIGALRM, self.old)
+        return False
+
+
 async def settle():
     for _ in range(6):
         await asyncio.sleep(0)
@@ -100,7 +128,8 @@ async def _run(recipe, lines, tags):
             if sid is not None and sid not in routed:
                 early.add(sid)
             try:
-                st = await eh.handle_notify(c09env.notify_headers(nt, nts, sid, k), c09env.render_body(body, pad, k))
+                with watchdog():
+                    st = await eh.handle_notify(c09env.notify_headers(nt, nts, sid, k), c09env.render_body(body, pad, k))
                 lines.append(f"out notified status {int(st)}")
             except Exception as e:  # noqa: BLE001
                 lines.append("out notified exc " + c09env.exc_tok(e))
@@ -115,9 +144,18 @@ async def _run(recipe, lines, tags):
                 lines.append("out nothing")
             else:
                 futs[i].set_result(tuple(react))
-                await settle()
+                hung = False
+                try:
+                    with watchdog():
+                        await settle()
+                except Hang:
+                    hung = True
+                    eh._backlog.clear()   # free what a self-feeding replay accumulated
                 t = tasks.pop(i)
                 try:
+                    if hung:
+                        t.cancel()
+                        raise Hang()
                     sid, td = t.result()
                     lines.append(f"out returned sub {tok_str(sid)} {c09env.td_seconds(td)}")
                     routed.add(sid)
@@ -126,6 +164,9 @@ async def _run(recipe, lines, tags):
                         tags.add("replayed")
                 except Exception as e:  # noqa: BLE001
                     lines.append("out returned exc " + c09env.exc_tok(e))
+                    if isinstance(e, Hang):
+                        eh._backlog.clear()
+                        tags.add("hang")
                 tags.add("respond:" + (react[0] if react[0] != "resp" else str(react[1])))
         else:
             raise ValueError(kind)
@@ -280,6 +321,8 @@ def _worker(args):
     recipes, start = args
     out = []
     for j, rec in enumerate(recipes):
+        if HANGS[0] >= 4:
+            break
         c = run_recipe(None, rec, f"x{start + j}")
         out.append((c.cid, c.lines, c.recipe, c.nontrivial, c.tags))
     return out
@@ -287,7 +330,12 @@ def _worker(args):
 
 def run_many(recipes: List[dict], prefix: str) -> List[Case]:
     if len(recipes) < 3000:
-        return [run_recipe(None, r, f"{prefix}{i}") for i, r in enumerate(recipes)]
+        out = []
+        for i, r in enumerate(recipes):
+            if HANGS[0] >= 4:   # the real code does not terminate on some events: already a judged failure
+                break
+            out.append(run_recipe(None, r, f"{prefix}{i}"))
+        return out
     chunk = 500
     jobs = [(recipes[i:i + chunk], i) for i in range(0, len(recipes), chunk)]
     with multiprocessing.get_context("fork").Pool(min(12, len(jobs)), initializer=_worker_init) as pool:
